@@ -312,7 +312,7 @@ def replay(cases, envs, backend: str = "numpy", nproc: int = 16, batch: int = 12
                     continue
                 stats["errors"] += 1
                 bad.append({"kind": "error", "backend": backend, "text": text, "style": st, "exception": ename,
-                            "message": msg, "tokens": cases[ci][st], "vals": cases[ci]["vals"],
+                            "message": msg, "tokens": cases[ci][st.replace("-compact", "")], "vals": cases[ci]["vals"],
                             "case": {k: cases[ci][k] for k in ("tmin", "tfull", "bool", "vals")}, "envs": envs})
             for i, got in out["values"].items():
                 ci, st, text = b[int(i)]
